@@ -44,7 +44,7 @@ if P and P.get('kind') == 'run':
         LARK = None
         BUILD_ERR = e
 
-if P and P.get('kind') in ('tab', 'prio'):
+if P and P.get('kind') in ('tab', 'prio', 'chain'):
     from lark.grammar import Rule, NonTerminal, Terminal, RuleOptions
     from lark.common import ParserConf
     from lark.parsers.lalr_analysis import LALR_Analyzer, Shift, Reduce
@@ -253,6 +253,119 @@ def _prio_body(rec, which, p1, p2):
     return True
 
 
+def _prio3_body(rec, p1, p2, p3):
+    # three rules competing for one lookahead: GrammarError exactly when the highest priority is not unique
+    ps = [p1, p2, p3]
+    names = ['e', 'f', 'h']
+    rules = [Rule(NonTerminal('start'), [NonTerminal(n), Terminal('A')], k) for k, n in enumerate(names)]
+    rules += [Rule(NonTerminal(n), [Terminal('X')], 0, None, RuleOptions(priority=ps[k])) for k, n in enumerate(names)]
+    err = None
+    table = None
+    try:
+        table = _lark_table(rules)
+    except GrammarError as e:
+        err = e
+    rec['key'] = ['prio3']
+    rec['nontrivial'] = True
+    top = p1
+    if p2 > top:
+        top = p2
+    if p3 > top:
+        top = p3
+    nwin = (1 if p1 == top else 0) + (1 if p2 == top else 0) + (1 if p3 == top else 0)
+    if nwin >= 2:
+        if err is None:
+            return hs.fail(rec, 'three competing rules, highest priority tied: reduce/reduce conflict not reported')
+        return True
+    if err is not None:
+        return hs.fail(rec, 'strict priority winner exists among three rules but GrammarError raised')
+    winner = 'e' if p1 == top else ('f' if p2 == top else 'h')
+    for s, row in table.items():
+        if ('e', ('X',), 1) in s:
+            if row.get('A') != ('reduce', (winner, ('X',))):
+                return hs.fail(rec, 'conflict among three rules not resolved to the highest-priority rule', row=str(row))
+    return True
+
+
+def prio3(p1: int, p2: int, p3: int) -> bool:
+    """
+    pre: True
+    post: _
+    """
+    return hs.run_path(_prio3_body, (p1, p2, p3), corner=lambda p1, p2, p3: p1 > p2 and p2 > p3)
+
+
+# second table template: nullable chains over four non-terminals, in both rule orders (FIRST/NULLABLE fixpoints, reads/includes)
+S_POOL = [[['T1', 'A', 'T2']], [['A', 'T1']], [['A', 'B', 'T1']], [['T1', 'A'], ['T2']]]
+A_POOL = [[['B', 'B']], [['B']], [['B', 'T2'], ['B']], [['C', 'B']]]
+B_POOL = [[['C']], [['C', 'C']], [[]], [['C'], ['T2']]]
+C_POOL = [[[]], [['T1'], []], [['T1']]]
+NT_NAMES = {'S': 'start', 'A': 'na', 'B': 'nb', 'C': 'nc'}
+
+
+def _chain_rules(si, ai, bi, ci, order):
+    bodies = {'S': S_POOL[si], 'A': A_POOL[ai], 'B': B_POOL[bi], 'C': C_POOL[ci]}
+    seq = ['S', 'A', 'B', 'C'] if order == 0 else ['C', 'B', 'A', 'S']
+
+    def sym(x):
+        return NonTerminal(NT_NAMES[x]) if x in NT_NAMES else Terminal(x)
+    rules = []
+    for nt in seq:
+        for k, alt in enumerate(bodies[nt]):
+            rules.append(Rule(NonTerminal(NT_NAMES[nt]), [sym(x) for x in alt], k))
+    g = Grammar([GRule(NT_NAMES[nt], [[N(NT_NAMES[x]) if x in NT_NAMES else T(x) for x in alt] for alt in bodies[nt]]) for nt in seq],
+                declare=['T1', 'T2'])
+    return rules, g
+
+
+def _chain_body(rec, si, ai, bi, ci, order):
+    si = hs.pick(si, 0, len(S_POOL) - 1)
+    ai = hs.pick(ai, 0, len(A_POOL) - 1)
+    bi = hs.pick(bi, 0, len(B_POOL) - 1)
+    ci = hs.pick(ci, 0, len(C_POOL) - 1)
+    order = hs.pick(order, 0, 1)
+    rules, g = _chain_rules(si, ai, bi, ci, order)
+    err = None
+    table = None
+    with hs.watchdog():
+        try:
+            table = _lark_table(rules)
+        except GrammarError as e:
+            err = e
+    with hs.untraced():
+        rec['key'] = [si, ai, bi, ci, order]
+        rec['nontrivial'] = True
+        bnf = cfg.BNF(g)
+        reach, todo = set(), ['start']
+        while todo:
+            x = todo.pop()
+            if x in reach:
+                continue
+            reach.add(x)
+            todo += [sy[1] for a in bnf.rules[x].alts for sy in a.syms if sy[0] == 'n']
+        if bnf.productive() != set(bnf.rules) or reach != set(bnf.rules):
+            rec['count'] = {'grammars_skipped_useless_symbols': 1}
+            return True
+        o = lalrref.LALR(bnf)
+        rec['count'] = {'grammars': 1, 'rr_conflict': int(bool(o.rr_conflicts)), 'sr_conflict': int(bool(o.sr_conflicts)), 'states': len(o.states)}
+        if bool(o.rr_conflicts) != (err is not None):
+            return hs.fail(rec, 'GrammarError %s but reference reduce/reduce conflicts: %d' % ('raised' if err else 'not raised', len(o.rr_conflicts)), grammar=g.render())
+        if err is None:
+            want = _norm_oracle_table(o)
+            if table != want:
+                diff = [str(x) for x in set(table) ^ set(want)][:2] or [str((x, table[x], want[x])) for x in table if table[x] != want[x]][:1]
+                return hs.fail(rec, 'LALR(1) table differs from the reference (canonical LR(1) merged by core)', grammar=g.render(), diff=diff)
+    return True
+
+
+def chain(si: int, ai: int, bi: int, ci: int, order: int) -> bool:
+    """
+    pre: 0 <= si < len(S_POOL) and 0 <= ai < len(A_POOL) and 0 <= bi < len(B_POOL) and 0 <= ci < len(C_POOL) and 0 <= order <= 1 and si == PIN_A
+    post: _
+    """
+    return hs.run_path(_chain_body, (si, ai, bi, ci, order), corner=lambda si, ai, bi, ci, order: ci == len(C_POOL) - 1 and order == 1)
+
+
 def prio(which: int, p1: int, p2: int) -> bool:
     """
     pre: 0 <= which <= 1
@@ -277,6 +390,11 @@ def plan(tier, seed):
                        'timeout': int(ng * 0.8 + 40), 'bound': {'grammars': ng}, 'twin': pa in (0, pool - 2)})
     slices.append({'id': 'prio:symbolic', 'func': 'prio', 'params': {'kind': 'prio'}, 'timeout': 60,
                    'bound': {'priorities': 'all of Z^2'}})
+    slices.append({'id': 'prio3:symbolic', 'func': 'prio3', 'params': {'kind': 'prio'}, 'timeout': 120,
+                   'bound': {'priorities': 'all of Z^3', 'competing_rules': 3}})
+    for si in range(len(S_POOL)):
+        slices.append({'id': 'chain:s%d' % si, 'func': 'chain', 'params': {'kind': 'chain', 'pin_a': si}, 'timeout': 240 if quick else 600,
+                       'bound': {'grammars': len(A_POOL) * len(B_POOL) * len(C_POOL) * 2}, 'twin': si == 0})
     meta = {
         'rule': 'run: one path per viable token prefix + one rejecting extension (non-trivial = non-empty); tab: one path per template grammar; '
                 'prio: one path per order relation between the two symbolic priorities',
